@@ -94,7 +94,9 @@ def run_cfg(cfg, rec):
     D = s1.depth(cfg)
     parents = [()] + [idx for idx in trie if len(idx) < D]
     for pidx in parents:
-        kids = [(a, trie[pidx + (a,)]) for a in range(k1)]
+        kids = [(a, trie[pidx + (a,)]) for a in range(k1) if pidx + (a,) in trie]  # the long-path family is not a full tree
+        if not kids:
+            continue
         pobs = trie.get(pidx)
         v, strict, nok = judge_group(cfg, pidx, pobs, kids)
         rec.vac("sibling_groups")
@@ -117,12 +119,12 @@ def run_cfg(cfg, rec):
 
 
 def explore(tier, seed):
-    return core.pmap(run_cfg, s1.configs(tier), seed, progress="C05")
+    return core.pmap(run_cfg, s1.configs(tier) + s1.long_configs(tier), seed, progress="C05")
 
 
 def run_case(case):
     cfg, pidx = case["cfg"], tuple(case["parent"])
     g = s1.grid(cfg)
     pobs = s1.observe(cfg, [g[i] for i in pidx]) if pidx else None
-    kids = [(a, s1.observe(cfg, [g[i] for i in pidx + (a,)])) for a in range(cfg["k"] + 1)]
+    kids = [(a, s1.observe(cfg, [g[i] for i in pidx + (a,)])) for a in range(len(g))]
     return judge_group(cfg, pidx, pobs, kids)[0]
